@@ -264,6 +264,40 @@ func cmdC04(args []string) error {
 		}
 		wp := filepath.Join(root, "wounds.pww")
 		vctx := &pwr.ValidatorContext{WoundsPath: wp, Consumer: nullConsumer()}
+		if k%2 == 1 {
+			// a validator context with a HISTORY (a launcher's verify / repair / verify loop): it first sees a badly
+			// damaged copy - every directory replaced by a file or by a symlink to a look-alike folder, a file deleted,
+			// one truncated - and then the pristine one
+			bad := filepath.Join(root, "damaged-first")
+			os.MkdirAll(bad, 0755)
+			copyDir(newDir, bad)
+			for di, dd := range sourceContainer.Dirs {
+				dp := filepath.Join(bad, filepath.FromSlash(dd.Path))
+				if _, err := os.Lstat(dp); err != nil {
+					continue // below a directory already replaced
+				}
+				if di%2 == 0 {
+					os.RemoveAll(dp)
+					os.WriteFile(dp, []byte("a file where a directory belongs"), 0644)
+				} else {
+					la := filepath.Join(root, fmt.Sprintf("lookalike-%d", di))
+					copyDir(dp, la)
+					os.RemoveAll(dp)
+					os.Symlink(la, dp)
+				}
+			}
+			for fi, f := range sourceContainer.Files {
+				fp := filepath.Join(bad, filepath.FromSlash(f.Path))
+				if fi%3 == 0 {
+					os.Remove(fp)
+				} else if fi%3 == 1 && f.Size > 0 {
+					os.Truncate(fp, f.Size/2)
+				}
+			}
+			vctx.WoundsPath = filepath.Join(root, "wounds-damaged.pww")
+			vctx.Validate(context.Background(), bad, si)
+			vctx.WoundsPath = wp
+		}
 		if err := vctx.Validate(context.Background(), copyTo, si); err != nil {
 			line.ValidateErr = err.Error()
 		}
